@@ -1375,6 +1375,20 @@ fn fixed_cases() -> Vec<Program> {
         ],
         &["cx0", "cx1"],
     ));
+    // 8: a FileSpec whose root file is not called pkg (e.g. built with SourceFile::read("aa.roto"))
+    out.push(mk(
+        "the root of a FileSpec is the package root whatever its file is called",
+        vec![],
+        vec![
+            ModD { ident: aa, parent: None, items: vec![f(ff, 101), cx(c0, 900, Block { imports: vec![], stmts: vec![
+                pr(0, PKind::Fn, &[ff]),
+                pr(1, PKind::Fn, &[PKG, ff]),
+                pr(2, PKind::Fn, &[PKG, bb, gg]),
+            ] })] },
+            ModD { ident: bb, parent: Some(0), items: vec![f(gg, 102)] },
+        ],
+        &["cx0"],
+    ));
     out
 }
 
@@ -1495,7 +1509,8 @@ fn module_names(p: &Program) -> Vec<String> {
             Some(pi) if pi < mp.len() => mp[pi].clone(),
             _ => vec![],
         };
-        path.push(p.names[m.ident].clone());
+        // the root of a tree is the package root `pkg`, whatever its file is called
+        path.push(if m.parent.is_none() { "pkg".to_string() } else { p.names[m.ident].clone() });
         mp.push(path);
     }
     mp.iter().map(|x| x.join(".")).collect()
